@@ -4,12 +4,12 @@ from .engine.helpers import *
 EXPLANATION = (
     "Static analysis of des-cqueue's allocator, box and list: (R1) the pointer returned by allocate is align_up(region start, align) "
     "with align taken from size_align(layout) — followed through find_region and alloc_from_region — and align_up has the "
-    "(addr+align-1)&!(align-1) shape; (R2) alloc_from_region returns Ok only if alloc_end <= region end (and the remainder is 0 or can "
+    "(addr+align-1)&!(align-1) shape; size_align derives the alignment from the requested layout (raised to the list node's, never replaced by it); (R2) alloc_from_region returns Ok only if alloc_end <= region end (and the remainder is 0 or can "
     "hold a list node); the remainder handed back by allocate starts at alloc_end and has size region_end - alloc_end; (R3) allocate and "
     "deallocate normalise the layout with the same size_align and adjust the byte counter by that size; LocalBox::new_in and its Drop use "
-    "Layout::new of the same type; (R4) node typestate: a freshly allocated node is forgotten (handed to the list) only after both "
-    "neighbour links are stored; a node re-boxed with from_raw_in is dropped/consumed only after its predecessor's next and its successor's "
-    "prev were redirected, and the sentinel is forgotten; (R5) CQueue::drop empties the bucket vector before the allocator field is "
+    "Layout::new of the same type; (R4) node typestate: a freshly allocated node is handed to the list exactly once and both "
+    "neighbour links are stored on the same path; a node re-boxed with from_raw_in is dropped/consumed only after its predecessor's next and its successor's "
+    "prev were redirected, the sentinel is forgotten, and a node is only destroyed after the end-of-list test on that very node was negative (sentinels are never freed); (R5) CQueue::drop empties the bucket vector before the allocator field is "
     "dropped and DualLinkedList::drop pops until None. Decides these necessary conditions only; not non-overlap / reuse-after-release over histories.")
 ASSUMPTIONS = ["the global allocator returns page_size-aligned pages", "raw-pointer aliasing is as the SAFETY comments state"]
 
